@@ -92,6 +92,9 @@ def main():
             old = json.load(open(os.path.join(dst, "meta.json")))
         except Exception:
             old = {}
+    if skip_tests and old.get("confirmation", {}).get("tests_pass_with_patch") is not None:
+        rec["tests_pass_with_patch"] = old["confirmation"]["tests_pass_with_patch"]
+        rec["tests_tail"] = old["confirmation"].get("tests_tail", "") + " (from the earlier confirmation run)"
     out = {"property": prop, "summary": meta.get("summary"), "needs_to_manifest": meta.get("needs_to_manifest"), "author": "independent sub-agent given only the property text",
            "agent_meta": meta, "confirmation": rec}
     hist = old.get("history", [])
